@@ -545,3 +545,4 @@ func c09Retention(r *mc.Run, bases []*c01base) {
 	r.SectionDone(mc.Section{Name: "result-retention-histories", Evaluations: int64(done), MaxDepth: depth, Exhaustive: done == total,
 		Note: fmt.Sprintf("alphabet of %d operations (%d quotes x %v), every sequence of length %d", n, len(items), kinds, depth)})
 }
+
